@@ -76,6 +76,9 @@ func (c *EmptyMatch) Result() []reflect.Value {
 	return []reflect.Value{}
 }
 
+// AddResult 没有返回参数, 重复的 Return() 无需记录任何结果
+func (c *EmptyMatch) AddResult([]interface{}) {}
+
 // DefaultMatcher 参数匹配
 // 入参个数必须和函数或方法参数个数一致,
 // 比如: When(
